@@ -34,7 +34,7 @@ pub fn def() -> CheckDef {
             "a worker process killed by the address-space limit or a signal is attributed to the input it had announced",
         ],
         min_distinct: (500, 5000),
-        deadline_s: (150.0, 1500.0),
+        deadline_s: (100.0, 1500.0),
         run,
         replay,
     }
@@ -50,6 +50,8 @@ pub struct Case {
     pub files: Files,
     pub entry: String,
     pub defines: Vec<(String, String)>,
+    /// run only the first k configurations (witnesses of expensive findings)
+    pub max_configs: Option<usize>,
 }
 
 impl Case {
@@ -69,6 +71,10 @@ impl Case {
             .set("files", files)
             .set("corpus_set", if self.files.total_len() > 64 * 1024 { self.kind.split(':').nth(1).unwrap_or("").to_string() } else { String::new() })
             .set("defines", Json::Arr(self.defines.iter().map(|(a, b)| Json::Arr(vec![Json::str(a), Json::str(b)])).collect()))
+            .set("configs", match self.max_configs {
+                Some(k) => Json::from(k),
+                None => Json::Null,
+            })
     }
     fn from_json(j: &Json, corpus: &Corpus) -> Case {
         let mut files = Files::from_json(j.get("files").unwrap_or(&Json::Null));
@@ -98,6 +104,7 @@ impl Case {
             files,
             entry: j.get_str("entry").unwrap_or("main.rssl").to_string(),
             defines,
+            max_configs: j.get("configs").and_then(|c| c.as_i64()).map(|c| c as usize),
         }
     }
 }
@@ -129,6 +136,7 @@ fn single(kind: &str, text: String) -> Case {
         files: Files::single("main.rssl", &text),
         entry: "main.rssl".to_string(),
         defines: Vec::new(),
+        max_configs: None,
     }
 }
 
@@ -153,7 +161,7 @@ pub fn make_case(seed: u64, index: u64, corpus: &Corpus) -> Case {
         let c = rng.pick(&corpus.snippets).clone();
         let text = if rng.chance(1, 2) { format!("{}\n{}\n", a, b) } else { format!("{}\n{}\n{}\n", b, a, c) };
         single("snippet_plus_unsupported", text)
-    } else if pick < 96 {
+    } else if pick < 90 {
         let family = rng.below(soup::STRESS_FAMILIES);
         let k = *rng.pick(&[1usize, 2, 3, 5, 8, 12, 12, 16, 24, 32, 48]);
         // families whose *output* legitimately grows as 2^k stay small
@@ -181,6 +189,7 @@ pub fn make_case(seed: u64, index: u64, corpus: &Corpus) -> Case {
                 files,
                 entry,
                 defines: set.defines.clone(),
+                max_configs: None,
             }
         }
     };
@@ -252,7 +261,10 @@ struct CfgResult {
 
 fn run_case_in_worker(case: &Case) -> Vec<CfgResult> {
     let mut out = Vec::new();
-    let cfgs = configurations(case.text());
+    let mut cfgs = configurations(case.text());
+    if let Some(k) = case.max_configs {
+        cfgs.truncate(k.max(1));
+    }
     // upper bound for arming: all bytes that could possibly be loaded
     let arm = budget_for(case.files.total_len() as u64 + 64);
     for (i, cfg) in cfgs.iter().enumerate() {
@@ -272,6 +284,7 @@ fn run_case_in_worker(case: &Case) -> Vec<CfgResult> {
             Outcome::Panic(c) => ("panic", c.signature(), c.location.clone()),
             Outcome::Budget { site, .. } => ("budget", format!("site{}", site), String::new()),
         };
+        let front_end_budget = matches!(&outcome, Outcome::Budget { site, .. } if *site <= 17);
         out.push(CfgResult {
             cfg: i,
             class,
@@ -282,6 +295,11 @@ fn run_case_in_worker(case: &Case) -> Vec<CfgResult> {
             lexed: steps.sites.get(1).copied().unwrap_or(0),
             pp_tokens: steps.sites.get(6).copied().unwrap_or(0),
         });
+        // the front end is shared by all configurations: once it has exhausted the step budget the other 23 runs would only
+        // burn the same (large) number of steps again
+        if front_end_budget {
+            break;
+        }
     }
     out
 }
@@ -508,7 +526,9 @@ fn abort_signature(desc: &str, stderr: &str, text: &str, include_cycle: bool) ->
         desc.to_string()
     };
     let depth = soup::nesting_depth(text);
-    let shape = if include_cycle {
+    let shape = if huge_bind_group(text) {
+        "huge-bind-group-index"
+    } else if include_cycle {
         "include-cycle"
     } else if depth > 400 {
         "nesting>400"
@@ -516,6 +536,22 @@ fn abort_signature(desc: &str, stderr: &str, text: &str, include_cycle: bool) ->
         "ordinary-input"
     };
     format!("abort:{}:{}", what, shape)
+}
+
+/// A bind group / register space index of six or more digits: bind groups are kept in vectors indexed by the group, so such
+/// an input costs time and memory proportional to the *value* written (recorded finding)
+fn huge_bind_group(text: &str) -> bool {
+    for key in ["space", "bind_group(", "DefaultBindGroup"] {
+        let mut rest = text;
+        while let Some(i) = rest.find(key) {
+            rest = &rest[i + key.len()..];
+            let digits: String = rest.trim_start_matches(|c: char| c == ' ' || c == '=' || c == '(').chars().take_while(|c| c.is_ascii_digit()).collect();
+            if digits.len() >= 6 {
+                return true;
+            }
+        }
+    }
+    false
 }
 
 fn budget_signature(detail: &str, text: &str) -> String {
@@ -647,7 +683,8 @@ fn examine(case: &Case, verdict: Verdict, report: &mut Report, case_json: &dyn F
         Verdict::Watchdog => {
             report.evaluations += 1;
             report.count("outcome:watchdog");
-            report.violation("watchdog", &format!("no result within the wall-clock limit for a {} input ({} bytes)", case.kind, text.len()), case_json());
+            let sig = if huge_bind_group(text) { "watchdog:huge-bind-group-index" } else { "watchdog" };
+            report.violation(sig, &format!("no result within the wall-clock limit for a {} input ({} bytes)", case.kind, text.len()), case_json());
         }
         Verdict::SpawnFailed(e) => report.inconclusive(&format!("cannot start worker: {}", e)),
     }
@@ -750,7 +787,7 @@ where
 
 fn run(ctx: &Ctx) -> Report {
     let corpus = Corpus::load();
-    let n = ctx.tier.pick(12_000, 400_000);
+    let n = ctx.tier.pick(20_000, 600_000);
     let seed = ctx.seed;
     let mut report = run_supervised(ctx, seed, n, &corpus, |idx| (format!("RUN {}", idx), make_case(seed, idx, &corpus)));
     report.count_n("corpus_snippets_available", corpus.snippets.len() as u64);
